@@ -48,7 +48,7 @@ def symbolic_sets(repo, ev):
     return T, SD
 
 
-def run(repo, rep):
+def _run(repo, rep):
     alg.reset()
     common.state_rule(repo, rep, [('geodepy.transform', 'conform7')])
     rep.trust('sv/alg.py exact normal forms and exact differentiation')
@@ -176,6 +176,14 @@ def run(repo, rep):
     rep.floor('R-FORMULA', 12, 'three coordinates and nine covariance elements')
     # negation of a parameter set
     c11.neg_rules(repo, rep, Evaluator(repo))
+
+
+def run(repo, rep):
+    from ..symval import INPLACE_EVENTS
+    del INPLACE_EVENTS[:]
+    _run(repo, rep)
+    # in-place array updates met while evaluating the functions above (element type follows the caller's numbers)
+    common.dtype_rule(repo, rep, [('geodepy.transform', 'conform7')])
 
 
 def controls(repo):
